@@ -85,7 +85,7 @@ func checkC15(c *Ctx) {
 			if !isRet {
 				return
 			}
-			ph, isPhi := ret.Results[0].(*ssa.Phi)
+			ph, isPhi := returnedValues(ret)[0].(*ssa.Phi)
 			if !isPhi || len(ph.Edges) != 2 {
 				why = "result is not a choice between two tiers"
 				return
@@ -158,7 +158,7 @@ func checkC15(c *Ctx) {
 				var rets []ssa.Value
 				eachInstr(g, func(_ *ssa.BasicBlock, _ int, in ssa.Instruction) {
 					if r, ok := in.(*ssa.Return); ok && len(r.Results) == 1 {
-						rets = append(rets, r.Results[0])
+						rets = append(rets, returnedValues(r)[0])
 					}
 					if call, ok := in.(*ssa.Call); ok && isCallTo(call, "sort.Strings") {
 						sorted = call
@@ -353,7 +353,7 @@ func checkHysteresis(c *Ctx) {
 					incOwn = false
 				}
 			case *ssa.Return:
-				if len(x.Results) == 1 && x.Results[0] == inc {
+				if len(x.Results) == 1 && returnedValues(x)[0] == inc {
 					retInc = true
 				}
 			}
@@ -934,7 +934,7 @@ func checkTierIdentity(c *Ctx, rule string) {
 							eachInstr(h, func(_ *ssa.BasicBlock, _ int, y ssa.Instruction) {
 								if r, ok := y.(*ssa.Return); ok && len(r.Results) == 1 {
 									nret++
-									if !trueImplies(r.Results[0], 0) {
+									if !trueImplies(returnedValues(r)[0], 0) {
 										all = false
 									}
 								}
@@ -1028,7 +1028,7 @@ func checkSnapshotImmutable(c *Ctx, rule string) {
 				if !ok || len(r.Results) != 1 {
 					return
 				}
-				if call, ok := r.Results[0].(*ssa.Call); ok {
+				if call, ok := returnedValues(r)[0].(*ssa.Call); ok {
 					for _, g := range p.callees(call) {
 						if returnsSnap[g] && !returnsSnap[fn] {
 							returnsSnap[fn] = true
